@@ -107,6 +107,10 @@ def Expr.parenText : Expr → Bool
   | .comb _ l r => l.parenText || r.parenText
   | .chain _ a b es => a.parenText || b.parenText || parenTextList es
   | .shared l e r => (l.getD []).contains '(' || (r.getD []).contains '(' || e.parenText
+  | .multi2 l e₁ m e₂ r => (l.getD []).contains '(' || (m.getD []).contains '(' || (r.getD []).contains '(' || e₁.parenText || e₂.parenText
+  | .multi3 l e₁ m₁ e₂ m₂ e₃ r =>
+    (l.getD []).contains '(' || (m₁.getD []).contains '(' || (m₂.getD []).contains '(' || (r.getD []).contains '(' ||
+    e₁.parenText || e₂.parenText || e₃.parenText
 def parenTextList : List Expr → Bool
   | [] => false
   | e :: es => e.parenText || parenTextList es
